@@ -161,7 +161,7 @@ func (s *fileState) exec(c *ctx, op string) string {
 		}
 		c.emit(op, lineOracle(content)+" ; "+res)
 		return res
-	case "fwrite": // fwrite <4|6> <contenthex> : rewrite the watched file, wait for the refresh
+	case "fwrite", "fmove": // fwrite <4|6> <contenthex> : rewrite the watched file in place, wait for the refresh; fmove: the new version is written under another name and moved into place (rename), as editors and configuration tools do
 		v6 := f[1] == "6"
 		pi := b2i(v6)
 		if s.name[pi] == "" || !s.auto[pi] {
@@ -185,14 +185,24 @@ func (s *fileState) exec(c *ctx, op string) string {
 		}
 		os.Remove(probe)
 		before := tablePtr(v6)
-		fh, err := os.OpenFile(s.name[pi], os.O_WRONLY, 0o644)
-		if err != nil {
-			panic(err)
+		if f[0] == "fmove" {
+			tmp := s.name[pi] + ".new"
+			if err := os.WriteFile(tmp, content, 0o644); err != nil {
+				panic(err)
+			}
+			if err := os.Rename(tmp, s.name[pi]); err != nil {
+				panic(err)
+			}
+		} else {
+			fh, err := os.OpenFile(s.name[pi], os.O_WRONLY, 0o644)
+			if err != nil {
+				panic(err)
+			}
+			if _, err := fh.WriteAt(content, 0); err != nil {
+				panic(err)
+			}
+			fh.Close()
 		}
-		if _, err := fh.WriteAt(content, 0); err != nil {
-			panic(err)
-		}
-		fh.Close()
 		// fsnotify delivery is asynchronous ("eventually"): a file the loader accepts must replace the
 		// served table within 10 s; one it rejects must not have replaced it after 300 ms
 		seen := "unchanged"
@@ -471,7 +481,11 @@ func genFile(c *ctx) {
 			switch c.rng.Intn(8) {
 			case 0:
 				k := kinds[c.rng.Intn(len(kinds))]
-				hist = append(hist, fmt.Sprintf("fwrite %c %s", k, hx(mkFile(k == '6', c.rng.Intn(3) == 0))))
+				how := "fwrite"
+				if c.rng.Intn(3) == 0 {
+					how = "fmove" // the new version moved into place
+				}
+				hist = append(hist, fmt.Sprintf("%s %c %s", how, k, hx(mkFile(k == '6', c.rng.Intn(3) == 0))))
 			case 1, 2, 3:
 				m := macs[c.rng.Intn(len(macs))]
 				if c.rng.Intn(6) == 0 {
